@@ -191,6 +191,10 @@ func (e *event) String() string {
 		return fmt.Sprintf("D %d %d %s %s %s", e.sid, r.status, fmtFields(r.fields), body, obs)
 	case 'E':
 		return "E"
+	case 'g':
+		return "GS"
+	case 'u':
+		return "RS"
 	}
 	return "?"
 }
@@ -223,6 +227,11 @@ func parseScenario(line string) *scenario {
 		t := strings.Fields(p)
 		var e event
 		e.kind = t[0][0]
+		if t[0] == "GS" {
+			e.kind = 'g'
+		} else if t[0] == "RS" {
+			e.kind = 'u'
+		}
 		switch e.kind {
 		case 'F':
 			f := &e.fr
@@ -309,6 +318,7 @@ func (r *scriptedReader) Read(p []byte) (int, error) {
 
 type parkedHandler struct {
 	view    string
+	tag     uint32 // the stream id the request says it is on (x-tag field), 0 if it does not say
 	release chan *respSpec
 }
 
@@ -401,6 +411,11 @@ func runServerScenario(sc *scenario) string {
 	run := &srvRun{bySid: map[uint32]*parkedHandler{}}
 	handler := func(ctx *fasthttp.RequestCtx) {
 		ph := &parkedHandler{view: reqView(ctx), release: make(chan *respSpec, 1)}
+		if v := ctx.Request.Header.Peek("x-tag"); len(v) > 0 {
+			if n, err := strconv.ParseUint(string(v), 10, 32); err == nil {
+				ph.tag = uint32(n)
+			}
+		}
 		run.mu.Lock()
 		run.parked = append(run.parked, ph)
 		run.inFlight++
@@ -458,6 +473,8 @@ func runServerScenario(sc *scenario) string {
 	returned := false
 	var groups []string
 
+	gated := false
+	var openGate func()
 	quiesce := func() (closed bool) {
 		dl := time.Now().Add(10 * time.Second)
 		stable := 0
@@ -465,7 +482,7 @@ func runServerScenario(sc *scenario) string {
 			t := http2.VerifTicks()
 			n, cl := peer.count()
 			rlOK := t[0] >= sent+1
-			slOK := t[2] >= 1+t[1]+t[3]
+			slOK := gated || t[2] >= 1+t[1]+t[3]
 			wlOK := t[4] == t[5] && int64(n-handshake) >= t[5]
 			dispOK := int64(totalStarted(run)) >= t[6]
 			hdOK := t[3] >= handlerDone
@@ -542,9 +559,14 @@ func runServerScenario(sc *scenario) string {
 		}
 		// handlers started during this step belong to the stream of the frame just sent
 		run.mu.Lock()
+		sort.SliceStable(run.parked, func(i, j int) bool { return run.parked[i].tag < run.parked[j].tag })
 		for _, ph := range run.parked {
-			items = append(items, fmt.Sprintf("X%d:%s", evSid, ph.view))
-			run.bySid[evSid] = ph
+			sid := evSid
+			if ph.tag != 0 {
+				sid = ph.tag
+			}
+			items = append(items, fmt.Sprintf("X%d:%s", sid, ph.view))
+			run.bySid[sid] = ph
 		}
 		run.parked = nil
 		run.mu.Unlock()
@@ -559,9 +581,26 @@ func runServerScenario(sc *scenario) string {
 	}
 
 	connClosed := false
+	closedWhileGated := false
 	for i := range sc.evs {
 		e := &sc.evs[i]
 		if connClosed {
+			if e.kind == 'u' && closedWhileGated && openGate != nil {
+				// the connection went while the stream loop was held: let it go through what was
+				// queued for it and see which requests it still hands to a handler
+				gated = false
+				openGate()
+				openGate = nil
+				waitTicksStable()
+				var items []string
+				run.mu.Lock()
+				for range run.parked {
+					items = append(items, "Xlate")
+				}
+				run.mu.Unlock()
+				groups = append(groups, strings.Join(append(items, "E"), ";"))
+				continue
+			}
 			groups = append(groups, "-")
 			continue
 		}
@@ -610,6 +649,28 @@ func runServerScenario(sc *scenario) string {
 					}
 				}
 			}
+		case 'g':
+			// hold the stream loop at the top of its loop: the read loop runs ahead of it. The loop is
+			// past its tick while it waits in select, so a WINDOW_UPDATE on stream 0 takes it round once.
+			openGate = http2.VerifGate(2)
+			nudge := newFrame('W', 0, 0)
+			nudge.inc = 1
+			sent++
+			if _, err := c2.Write(nudge.wire()); err != nil {
+				connClosed = true
+			}
+			if quiesce() {
+				connClosed = true
+			}
+			gated = true
+			report(0, connClosed)
+			continue
+		case 'u':
+			gated = false
+			if openGate != nil {
+				openGate()
+				openGate = nil
+			}
 		case 'E':
 			_ = c2.Close()
 			select {
@@ -625,6 +686,7 @@ func runServerScenario(sc *scenario) string {
 		closed := quiesce()
 		if closed {
 			connClosed = true
+			closedWhileGated = gated
 			select {
 			case <-retCh:
 				returned = true
@@ -639,6 +701,10 @@ func runServerScenario(sc *scenario) string {
 				groups[len(groups)-1] += ";HANG"
 			}
 		}
+	}
+	if openGate != nil {
+		openGate()
+		openGate = nil
 	}
 	// tear down: release parked handlers, close the peer side
 	run.mu.Lock()
@@ -665,6 +731,7 @@ func runServerScenario(sc *scenario) string {
 		}
 		time.Sleep(50 * time.Microsecond)
 	}
+	waitTicksStable()
 	_, _, viol, _ := http2.VerifPoolTrackerStop()
 	res := strings.Join(groups, " / ")
 	run.mu.Lock()
@@ -723,4 +790,21 @@ func decodeFullLenient(dec *hpack.Decoder, b []byte) ([]hpack.HeaderField, error
 		b = b[n:]
 	}
 	return dec.DecodeFull(b)
+}
+
+// waitTicksStable waits until the server's loops have stopped ticking (teardown only: it isolates
+// one scenario's counters from the next, it does not decide any result).
+func waitTicksStable() {
+	last := http2.VerifTicks()
+	stable := 0
+	for dl := time.Now().Add(3 * time.Second); time.Now().Before(dl) && stable < 40; {
+		time.Sleep(50 * time.Microsecond)
+		t := http2.VerifTicks()
+		if t == last {
+			stable++
+		} else {
+			stable = 0
+			last = t
+		}
+	}
 }
